@@ -15,6 +15,7 @@ TraceNext ==
        /\ Report(ResourcesHaveNodes(s), "C22", l, "resource-record-without-node/" \o Pair(e))
        /\ Report(WorkloadsHaveNodes(s), "C22", l, "workload-on-unrecorded-node/" \o Pair(e))
        /\ Report(UsageIsSum(s), "C10", l, "usage-differs-from-workload-sum/concurrent/" \o Pair(e))
+       /\ Report(NoOvercommit(s), "C10", l, "usage-above-capacity/concurrent/" \o Pair(e))
     /\ l' = l + 1
 TraceSpec == TraceInit /\ [][TraceNext]_l
 TraceAccepted == IF TLCGet("stats").diameter - 1 = Len(Trace)
